@@ -57,7 +57,43 @@ func (ex *exec) calleeContract(c *ssa.CallCommon) (*FuncContract, *ssa.Function,
 		return nil, nil, ""
 	}
 	key := funcKey(fn)
-	return eng.contracts[key], fn, key
+	if fc := eng.contracts[key]; fc != nil {
+		return fc, fn, key
+	}
+	// a method without its own contract inherits the contract of an interface its receiver type implements
+	if fn.Signature.Recv() != nil {
+		if ifc := eng.inheritedIfaceContract(fn); ifc != nil {
+			return ifc, fn, key
+		}
+	}
+	return nil, fn, key
+}
+
+func (eng *Engine) inheritedIfaceContract(fn *ssa.Function) *FuncContract {
+	rt := fn.Signature.Recv().Type()
+	for k, fc := range eng.contracts {
+		if !strings.HasPrefix(k, "iface:") {
+			continue
+		}
+		parts := strings.Split(strings.TrimPrefix(k, "iface:"), ".")
+		if len(parts) != 3 || parts[2] != fn.Name() {
+			continue
+		}
+		p := eng.pkgs[parts[0]]
+		if p == nil {
+			continue
+		}
+		obj := p.Types.Scope().Lookup(parts[1])
+		if obj == nil {
+			continue
+		}
+		if iface, ok := obj.Type().Underlying().(*types.Interface); ok {
+			if types.Implements(rt, iface) || types.Implements(types.NewPointer(rt), iface) {
+				return fc
+			}
+		}
+	}
+	return nil
 }
 
 // callModifies: heap maps a call may modify (for loop havoc sets).
@@ -329,7 +365,49 @@ func (ex *exec) call(st *State, x *ssa.Call) {
 			vc.assume(ex.cur, p.t)
 		}
 	}
+	// the callee's read footprint must lie inside ours
+	if ex.readSet != nil && !fc.Trusted {
+		if fc.HasReads {
+			cls, err := ex.evalLocSet(env, fc.Reads)
+			if err != nil {
+				ex.bail("call %s reads: %v", key, err)
+			}
+			for _, h := range sortedKeys(cls.fieldRefs) {
+				for _, r := range cls.fieldRefs[h] {
+					vc.oblige(fmt.Sprintf("call[%s].reads[%s]", short, strings.TrimPrefix(h, "H")), "frame", ex.cur, ex.readSet.covers(h, locField, r), "callee reads outside the declared reads footprint", pos)
+				}
+			}
+			for _, h := range sortedKeys(cls.elemArrs) {
+				for _, sl := range cls.elemArrs[h] {
+					vc.oblige(fmt.Sprintf("call[%s].reads[%s]", short, strings.TrimPrefix(h, "H")), "frame", ex.cur, sOr(sEq("(slen "+sl+")", "0"), ex.readSet.covers(h, locElem, "(sarr "+sl+")")), "callee reads outside the declared reads footprint", pos)
+				}
+			}
+			for h := range cls.globals {
+				vc.oblige(fmt.Sprintf("call[%s].reads[%s]", short, strings.TrimPrefix(h, "H")), "frame", ex.cur, ex.readSet.covers(h, locGlobal, "0"), "callee reads a global outside the declared reads footprint", pos)
+			}
+		} else {
+			var crs *readSet
+			if c.IsInvoke() {
+				crs = vc.eng.ifaceReads(c.Value.Type(), c.Method)
+			} else if fn != nil {
+				crs = vc.eng.readsOf(fn)
+			}
+			if crs == nil || crs.unknown != "" || len(crs.names) > 0 {
+				why := "callee has no reads clause"
+				if crs != nil && crs.unknown != "" {
+					why += " (" + crs.unknown + ")"
+				}
+				vc.oblige(fmt.Sprintf("call[%s].reads[undeclared]", short), "frame", ex.cur, "false", why, pos)
+			}
+		}
+	}
 	// effects
+	if fc.Pure {
+		// a pure function may still allocate what it returns
+		nr := vc.freshConst("nextRef", "Int")
+		vc.assume("true", "(>= "+nr+" "+st.nextRef+")")
+		st.nextRef = nr
+	}
 	if !fc.Pure {
 		if !fc.HasAssigns {
 			vc.havocAllHeap(st)
@@ -346,8 +424,23 @@ func (ex *exec) call(st *State, x *ssa.Call) {
 	}
 	// results
 	var results []Val
+	var rs *readSet
+	if fc.Pure {
+		if c.IsInvoke() {
+			rs = vc.eng.ifaceReads(c.Value.Type(), c.Method)
+		} else if fn != nil {
+			rs = vc.eng.readsOf(fn)
+		}
+	}
 	for i := 0; i < res.Len(); i++ {
 		rt := res.At(i).Type()
+		if fc.Pure && vc.sorts.sortOf(rt) != SSlice {
+			t := ex.pureTerm(fc, key, names, args, pre, rs, i, vc.sorts.sortOf(rt))
+			t = vc.define("r_"+shortName(key), vc.sorts.sortOf(rt), t)
+			vc.assume(ex.cur, vc.sorts.typeInv(rt, t, st.nextRef))
+			results = append(results, Val{T: t, S: vc.sorts.sortOf(rt), Typ: rt})
+			continue
+		}
 		n := vc.freshConst("r_"+shortName(key), vc.sorts.sortOf(rt))
 		vc.assume("true", vc.sorts.typeInv(rt, n, st.nextRef))
 		results = append(results, Val{T: n, S: vc.sorts.sortOf(rt), Typ: rt})
